@@ -9,8 +9,8 @@
    explicit and is carried from call to call.
 
    Modelled abstractly: the unsafe 8-byte uint64 load / xor / store of encrypt8 and decrypt8, and
-   xor.Bytes16Align are the bytewise xor of one block (Proofs.v shows that the little-endian
-   load / 64-bit xor / store is the bytewise xor on byte lists). *)
+   xor.Bytes16Align are the bytewise xor of one block (xor_u64_le / xor_u64_be below and
+   c16_u64_xor_is_bytewise justify this for the uint64 path). *)
 From Coq Require Import NArith List Bool Arith.
 Import ListNotations.
 
@@ -25,6 +25,23 @@ Fixpoint xorl (a b : list N) : list N :=
   | x :: a', y :: b' => N.lxor x y :: xorl a' b'
   | _, _ => []
   end.
+
+(* What encrypt8 / decrypt8 do through unsafe.Pointer for one block: load 8 bytes as a uint64
+   (little-endian on amd64/arm64, big-endian elsewhere), xor, store.  Proofs.v shows that
+   either way this is xorl on 8-byte lists of bytes, which is what the steps below use. *)
+Fixpoint le_load (b : list N) : N :=
+  match b with
+  | [] => 0
+  | x :: r => x + 256 * le_load r
+  end%N.
+Fixpoint le_store (n : nat) (v : N) : list N :=
+  match n with
+  | O => []
+  | S k => (v mod 256)%N :: le_store k (v / 256)%N
+  end.
+Definition xor_u64_le (s t : list N) : list N := le_store 8 (N.lxor (le_load s) (le_load t)).
+Definition xor_u64_be (s t : list N) : list N :=
+  rev (le_store 8 (N.lxor (le_load (rev s)) (le_load (rev t)))).
 
 Record st : Type := mkst { data : list N; buf : list N }.
 
